@@ -182,18 +182,19 @@ class _RemotePathMapper:
                     available=True,
                 )
             )
-            if location.path in node.valid_paths.get(location.deployment, {}).get(
-                location.name, set()
+            if not any(
+                loc.path == location.path and loc.data_type != DataType.INVALID
+                for loc in node.locations.get(location.deployment, {}).get(
+                    location.name, []
+                )
             ):
-                break
-            else:
                 node.locations.setdefault(location.deployment, {}).setdefault(
                     location.name, []
                 ).append(location)
                 node.valid_paths.setdefault(location.deployment, {}).setdefault(
                     location.name, set()
                 ).add(location.path)
-                relpath = path_processor.dirname(relpath)
+            relpath = path_processor.dirname(relpath)
         # Return location
         return data_location
 
